@@ -44,6 +44,7 @@ CONFIGS = {
     'c9': dict(v='V0', autokwd=True),
     'c10': dict(v='V1', ignore_case=True, autokwd=True, skipws=False),
     'c11': dict(v='V0', use_regexp_group=True, memoization=True),
+    'c12': dict(v='V1', global_repository=True, importuri=True, processors=True),
 }
 
 
@@ -81,6 +82,9 @@ def build(cname):
             return int(x) * 2
 
         def wire(w):
+            # runs after the model was linked (common rule)
+            if w.name == 'badwire':
+                raise TextXError('bad wire')
             w.processed = True
         mm.register_obj_processors({'Num': num, 'Wire': wire})
     return mm
